@@ -17,7 +17,7 @@ StoreClause(r) ==
     ELSE IF (r.out = "ok") # acc THEN "accept-iff-in-range"
     ELSE IF r.out = "overflow" THEN (IF r.after = r.before THEN "ok" ELSE "unchanged-on-reject")
     ELSE IF Window(BytesBits(r.after), 0, r.w) # Twos(r.v, r.w) THEN "stored-bytes"
-    ELSE IF r.hasrb /\ ~Eq(r.rb, r.v) THEN "readback"
+    ELSE IF r.rberr \/ (r.hasrb /\ ~Eq(r.rb, r.v)) THEN "readback"
     ELSE "ok"
 
 BfAccepts(kind, bs, v) == Accepts(bs, kind, v) \/ (kind = "signed" /\ bs = 1 /\ ~IsNeg(v) /\ MagIs2Pow(v.mag, 0))
